@@ -223,7 +223,9 @@ func c09NewLane(cert tls.Certificate) (*c09Lane, error) {
 		// configurations: listener options rt= / wt= (none, read timeout, write timeout, both) and proxy.dialtimeout
 		// (fabio's default of 30 s everywhere; "dt": a short one, which the tunnels of the scenarios about it outlive)
 		for conf, to := range map[string][3]time.Duration{"": {0, 0, c09DialDefault}, "rt": {c09RT, 0, c09DialDefault}, "wt": {0, c09WT, c09DialDefault},
-			"both": {c09RT, c09WT, c09DialDefault}, "dt": {0, 0, c09RT}} {
+			"both": {c09RT, c09WT, c09DialDefault}, "dt": {0, 0, c09RT},
+			// a SHORT write timeout (the scenarios about it have a client that is silent for longer), alone and next to a read timeout that is never reached
+			"wts": {0, c09RT, c09DialDefault}, "wtsrt": {c09WT, c09RT, c09DialDefault}} {
 			h := mk(to[2])
 			ln, addr, err := verifx.ListenFree()
 			if err != nil {
@@ -290,7 +292,7 @@ func TestVerifC09(t *testing.T) {
 	var sampleMu sync.Mutex
 	var samples []string
 	perPath := map[string]*int64{"tcp": new(int64), "sni": new(int64), "dyn": new(int64), "tls": new(int64)}
-	var errFamily, unsupported, rtCases int64
+	var errFamily, unsupported, rtCases, wtCases int64
 	var lanes []*c09Lane
 	for i := 0; i < nl; i++ {
 		lane, err := c09NewLane(cert)
@@ -343,6 +345,9 @@ func TestVerifC09(t *testing.T) {
 		if c.Sc.RT == 1 {
 			atomic.AddInt64(&rtCases, 1)
 		}
+		if c.Sc.WT == 1 {
+			atomic.AddInt64(&wtCases, 1)
+		}
 		b, _ := json.Marshal([]any{c.Sc, c.Path, c.Spell, c.Split, c.Hello, c.TLSVer, c.Cork, c.Conf})
 		if _, dup := seen.LoadOrStore(verifx.Hash(b), true); !dup && len(res.ExpU) > 0 && len(res.ExpC) > 0 {
 			atomic.AddInt64(&nontrivial, 1)
@@ -390,7 +395,7 @@ func TestVerifC09(t *testing.T) {
 					continue
 				}
 				addr, ok := lane.addr[c.Path+"/"+c.Conf]
-				if (c.Sc.RT == 1) != (c.Conf == "rt" || c.Conf == "both") || (c.Sc.DT == 1) != (c.Conf == "dt") {
+				if (c.Sc.RT == 1) != (c.Conf == "rt" || c.Conf == "both") || (c.Sc.DT == 1) != (c.Conf == "dt") || (c.Sc.WT == 1) != (c.Conf == "wts" || c.Conf == "wtsrt") {
 					ok = false // a read timeout / a short dial timeout only where the scenario is about one
 				}
 				hello := hellos[c.Hello]
@@ -437,6 +442,6 @@ func TestVerifC09(t *testing.T) {
 	verifx.Summary(map[string]any{"cases": len(cases), "ran": ran, "evaluations": evals, "distinct_nontrivial": nontrivial,
 		"hangs": hangs, "skipped": skipped, "aborted": aborted, "samples": samples,
 		"tcp": *perPath["tcp"], "sni": *perPath["sni"], "dyn": *perPath["dyn"], "tls": *perPath["tls"],
-		"failing_direction": errFamily, "unsupported": unsupported, "read_timeout": rtCases, "dynbin": dynPlayed,
+		"failing_direction": errFamily, "unsupported": unsupported, "read_timeout": rtCases, "write_timeout_pause": wtCases, "dynbin": dynPlayed,
 		"hello_sizes": map[string]int{"tls13": len(hellos["tls13"]), "tls12": len(hellos["tls12"]), "alpn5k": len(hellos["alpn5k"]), "alpn12k": len(hellos["alpn12k"])}})
 }
